@@ -3,6 +3,7 @@ import Toq.Model.MatrixPreds
 import Toq.Spec.MatrixOps
 import Toq.Proofs.Idx
 import Toq.Proofs.Cert
+import Toq.Proofs.Rank
 import Mathlib.LinearAlgebra.Matrix.ToLin
 import Mathlib.LinearAlgebra.Matrix.Rank
 import Mathlib.Algebra.BigOperators.Group.Finset.Basic
@@ -916,5 +917,291 @@ theorem rankCert_sound {R C r k : Nat} (S : EMat R C) (P : EMat r R) (Q : EMat C
   rw [h6] at h5
   have h7 : S.toM.rank = Module.finrank ℂ (LinearMap.range S.toM.mulVecLin) := rfl
   omega
+
+end Toq.MatrixPreds
+
+
+/-! ## exact rank (shared routine `Toq.Rank`): rank, spark, linear independence, commutant nullity -/
+
+namespace Toq.MatrixOps
+open Matrix
+
+
+/-- the complex `r × c` matrix denoted by the leading block of exact rows -/
+def qmatToM (r c : Nat) (M : QMat) : Matrix (Fin r) (Fin c) ℂ := fun i j => (M.get i.val j.val).toC
+
+theorem rank_eq_rank (rows cols : Nat) (M : QMat) : rank rows cols M = (qmatToM rows cols M).rank :=
+  Toq.Rank.rankFn_eq_rank rows cols M.get
+
+theorem selectCols_get (M : QMat) (cols : List Nat) (i t : Nat) (ht : t < cols.length) :
+    (selectCols M cols).get i t = M.get i cols[t] := by
+  unfold selectCols QMat.get
+  by_cases hi : i < M.size
+  · simp [hi, ht]
+  · have hd : (default : Array QI) = #[] := rfl
+    simp [hi, hd]
+
+/-- the columns `cols` of `M` (with `m` rows) as complex vectors -/
+def colFamily (m : Nat) (M : QMat) (cols : List Nat) : Fin cols.length → Fin m → ℂ :=
+  fun t i => (M.get i.val cols[t.val]).toC
+
+theorem rank_selectCols_lt_iff (m : Nat) (M : QMat) (cols : List Nat) :
+    rank m cols.length (selectCols M cols) < cols.length ↔ ¬ LinearIndependent ℂ (colFamily m M cols) := by
+  rw [rank_eq_rank]
+  have hle : (qmatToM m cols.length (selectCols M cols)).rank ≤ cols.length := Matrix.rank_le_width _
+  have hcol : (qmatToM m cols.length (selectCols M cols)).col = colFamily m M cols := by
+    funext t i
+    simp [qmatToM, colFamily, Matrix.col, selectCols_get]
+  rw [← hcol, Toq.Rank.linearIndependent_col_iff_rank]
+  omega
+
+theorem length_of_mem_go (n : Nat) : ∀ (fuel lo k : Nat) (c : List Nat), c ∈ combinations.go n lo k fuel → c.length = k := by
+  intro fuel
+  induction fuel with
+  | zero =>
+    intro lo k c hc
+    unfold combinations.go at hc
+    split at hc
+    · simp at hc; subst hc; simp_all
+    · simp at hc
+  | succ fuel ih =>
+    intro lo k c hc
+    unfold combinations.go at hc
+    split at hc
+    · simp at hc; subst hc; simp_all
+    · split at hc
+      · simp at hc
+      · rw [List.mem_append, List.mem_map] at hc
+        rcases hc with ⟨t, ht, rfl⟩ | hc
+        · have := ih _ _ _ ht
+          simp [this]; omega
+        · exact ih _ _ _ hc
+
+theorem length_of_mem_combinations (n k : Nat) (c : List Nat) (hc : c ∈ combinations n k) : c.length = k := by
+  cases k with
+  | zero => simp [combinations] at hc; subst hc; rfl
+  | succ k => exact length_of_mem_go n _ _ _ c hc
+
+theorem find?_range {p : Nat → Bool} : ∀ (N k : Nat), (List.range N).find? p = some k →
+    p k = true ∧ k < N ∧ ∀ j, j < k → p j = false
+  | 0, k, h => by simp at h
+  | N + 1, k, h => by
+    rw [List.range_succ, List.find?_append] at h
+    cases hN : (List.range N).find? p with
+    | some k' =>
+      rw [hN] at h
+      simp at h
+      subst h
+      obtain ⟨h1, h2, h3⟩ := find?_range N k' hN
+      exact ⟨h1, by omega, h3⟩
+    | none =>
+      rw [hN] at h
+      simp at h
+      obtain ⟨hp, rfl⟩ := h
+      refine ⟨hp, by omega, fun j hj => ?_⟩
+      rw [List.find?_eq_none] at hN
+      have := hN j (List.mem_range.mpr hj)
+      simpa using this
+
+theorem find?_range_none {p : Nat → Bool} (N : Nat) (h : (List.range N).find? p = none) (j : Nat) (hj : j < N) : p j = false := by
+  rw [List.find?_eq_none] at h
+  simpa using h j (List.mem_range.mpr hj)
+
+/-- some `k` columns of `M` (`m` rows, `n` columns), with indices enumerated by `combinations n k` (the order of
+    `itertools.combinations(range(n), k)`), are linearly dependent over `ℂ` -/
+def DependentCols (m n : Nat) (M : QMat) (k : Nat) : Prop :=
+  ∃ cols ∈ combinations n k, ¬ LinearIndependent ℂ (colFamily m M cols)
+
+theorem any_rank_test_iff (m n : Nat) (M : QMat) (k : Nat) :
+    (combinations n k).any (fun cols => rank m k (selectCols M cols) < k) = true ↔ DependentCols m n M k := by
+  rw [List.any_eq_true]
+  constructor
+  · rintro ⟨cols, hc, h⟩
+    have hl := length_of_mem_combinations n k cols hc
+    refine ⟨cols, hc, ?_⟩
+    rw [← rank_selectCols_lt_iff, hl]
+    simpa using h
+  · rintro ⟨cols, hc, h⟩
+    have hl := length_of_mem_combinations n k cols hc
+    refine ⟨cols, hc, ?_⟩
+    rw [← rank_selectCols_lt_iff, hl] at h
+    simpa using h
+
+def HasZeroCol (m n : Nat) (M : QMat) : Prop := ∃ j, j < n ∧ ∀ i, i < m → M.get i j = 0
+
+theorem zeroCol_iff (m n : Nat) (M : QMat) :
+    anyBelow n (fun j => allBelow m (fun i => M.get i j == 0)) = true ↔ HasZeroCol m n M := by
+  rw [anyBelow_iff]
+  constructor
+  · rintro ⟨j, hj, h⟩
+    rw [allBelow_iff] at h
+    exact ⟨j, hj, fun i hi => by simpa using h i hi⟩
+  · rintro ⟨j, hj, h⟩
+    refine ⟨j, hj, ?_⟩
+    rw [allBelow_iff]
+    intro i hi
+    simpa using h i hi
+
+theorem spark_of_zeroCol (m n : Nat) (M : QMat) (h : HasZeroCol m n M) : spark m n M = 1 := by
+  unfold spark
+  rw [if_pos ((zeroCol_iff m n M).mpr h)]
+
+theorem spark_spec_aux (m n : Nat) (M : QMat) (h : ¬ HasZeroCol m n M) :
+    1 ≤ spark m n M ∧ spark m n M ≤ min m n + 1 ∧
+    (spark m n M ≤ min m n → DependentCols m n M (spark m n M)) ∧
+    (∀ k, 1 ≤ k → k < spark m n M → ¬ DependentCols m n M k) := by
+  unfold spark
+  rw [if_neg (fun hz => h ((zeroCol_iff m n M).mp hz))]
+  cases hf : (List.range (min m n)).find? (fun k0 =>
+        (combinations n (k0 + 1)).any (fun cols => rank m (k0 + 1) (selectCols M cols) < k0 + 1)) with
+  | some k0 =>
+    obtain ⟨h1, h2, h3⟩ := find?_range _ _ hf
+    refine ⟨by simp, by simp; omega, fun _ => (any_rank_test_iff m n M (k0 + 1)).mp h1, ?_⟩
+    intro k hk1 hk2 hd
+    have hk2' : k - 1 < k0 := by simp at hk2; omega
+    have := h3 (k - 1) hk2'
+    have hk : k - 1 + 1 = k := by omega
+    rw [hk] at this
+    rw [← any_rank_test_iff, this] at hd
+    exact Bool.false_ne_true hd
+  | none =>
+    refine ⟨by simp, le_refl _, fun hle => absurd hle (by simp only [not_le]; omega), ?_⟩
+    intro k hk1 hk2 hd
+    have hk2' : k - 1 < min m n := by simp at hk2 ⊢; omega
+    have := find?_range_none _ hf (k - 1) hk2'
+    have hk : k - 1 + 1 = k := by omega
+    simp only [hk] at this
+    rw [← any_rank_test_iff, this] at hd
+    exact Bool.false_ne_true hd
+
+theorem commutantDim_eq (dim : Nat) (gens : List (Mat QI)) :
+    commutantDim dim gens
+      = Module.finrank ℂ (LinearMap.ker (qmatToM (gens.length * dim * dim) (dim * dim) (commStack dim gens)).mulVecLin) := by
+  unfold commutantDim
+  rw [rank_eq_rank, Toq.Rank.finrank_ker_eq]
+
+
+theorem mem_go_iff (n : Nat) : ∀ (fuel lo k : Nat) (c : List Nat), n - lo ≤ fuel →
+    (c ∈ combinations.go n lo k fuel ↔ c.length = k ∧ c.Pairwise (· < ·) ∧ ∀ x ∈ c, lo ≤ x ∧ x < n) := by
+  intro fuel
+  induction fuel with
+  | zero =>
+    intro lo k c hf
+    unfold combinations.go
+    split
+    · next hk =>
+      subst hk
+      simp only [List.mem_singleton]
+      constructor
+      · rintro rfl; simp
+      · rintro ⟨h, _, _⟩; exact List.length_eq_zero_iff.mp h
+    · next hk =>
+      simp only [List.not_mem_nil, false_iff]
+      rintro ⟨hl, _, hx⟩
+      cases c with
+      | nil => exact hk hl.symm
+      | cons x t => have := hx x (List.mem_cons_self); omega
+  | succ fuel ih =>
+    intro lo k c hf
+    unfold combinations.go
+    split
+    · next hk =>
+      subst hk
+      simp only [List.mem_singleton]
+      constructor
+      · rintro rfl; simp
+      · rintro ⟨h, _, _⟩; exact List.length_eq_zero_iff.mp h
+    · next hk =>
+      split
+      · next hlo =>
+        simp only [List.not_mem_nil, false_iff]
+        rintro ⟨hl, _, hx⟩
+        cases c with
+        | nil => exact hk hl.symm
+        | cons x t => have := hx x (List.mem_cons_self); omega
+      · next hlo =>
+        rw [List.mem_append, List.mem_map]
+        constructor
+        · rintro (⟨t, ht, rfl⟩ | hc)
+          · obtain ⟨h1, h2, h3⟩ := (ih (lo + 1) (k - 1) t (by omega)).mp ht
+            refine ⟨by simp [h1]; omega, ?_, ?_⟩
+            · rw [List.pairwise_cons]
+              exact ⟨fun a ha => by have := h3 a ha; omega, h2⟩
+            · intro x hx
+              rcases List.mem_cons.mp hx with rfl | hx
+              · omega
+              · have := h3 x hx; omega
+          · obtain ⟨h1, h2, h3⟩ := (ih (lo + 1) k c (by omega)).mp hc
+            exact ⟨h1, h2, fun x hx => by have := h3 x hx; omega⟩
+        · rintro ⟨h1, h2, h3⟩
+          cases c with
+          | nil => exact absurd h1.symm hk
+          | cons x t =>
+            rw [List.pairwise_cons] at h2
+            have hx := h3 x List.mem_cons_self
+            by_cases hxl : x = lo
+            · left
+              refine ⟨t, (ih (lo + 1) (k - 1) t (by omega)).mpr ⟨by simp at h1; omega, h2.2, ?_⟩, by rw [hxl]⟩
+              intro y hy
+              have := h2.1 y hy
+              have := h3 y (List.mem_cons_of_mem _ hy)
+              omega
+            · right
+              refine (ih (lo + 1) k (x :: t) (by omega)).mpr ⟨h1, List.pairwise_cons.mpr h2, ?_⟩
+              intro y hy
+              rcases List.mem_cons.mp hy with rfl | hy
+              · omega
+              · have := h2.1 y hy
+                have := h3 y (List.mem_cons_of_mem _ hy)
+                omega
+
+/-- `combinations n k` lists exactly the strictly increasing index lists of length `k` below `n` -/
+theorem mem_combinations_iff (n k : Nat) (c : List Nat) :
+    c ∈ combinations n k ↔ c.length = k ∧ c.Pairwise (· < ·) ∧ ∀ x ∈ c, x < n := by
+  cases k with
+  | zero =>
+    simp only [combinations, List.mem_singleton]
+    constructor
+    · rintro rfl; simp
+    · rintro ⟨h, _, _⟩; exact List.length_eq_zero_iff.mp h
+  | succ k =>
+    show c ∈ combinations.go n 0 (k + 1) n ↔ _
+    rw [mem_go_iff n n 0 (k + 1) c (by omega)]
+    simp
+
+
+theorem dependentCols_iff (m n : Nat) (M : QMat) (k : Nat) :
+    DependentCols m n M k ↔ ∃ cols : List Nat, cols.length = k ∧ cols.Pairwise (· < ·) ∧ (∀ x ∈ cols, x < n) ∧
+      ¬ LinearIndependent ℂ (colFamily m M cols) := by
+  unfold DependentCols
+  constructor
+  · rintro ⟨cols, hc, h⟩
+    obtain ⟨h1, h2, h3⟩ := (mem_combinations_iff n k cols).mp hc
+    exact ⟨cols, h1, h2, h3, h⟩
+  · rintro ⟨cols, h1, h2, h3, h⟩
+    exact ⟨cols, (mem_combinations_iff n k cols).mpr ⟨h1, h2, h3⟩, h⟩
+
+end Toq.MatrixOps
+
+namespace Toq.MatrixPreds
+open Toq.MatrixOps Matrix
+
+
+theorem qmatToM_ofMat (A : Mat QI) : qmatToM A.r A.c (QMat.ofMat A) = fun i j => (A.f i.val j.val).toC := by
+  funext i j
+  simp [qmatToM, ofMat_get A i.val j.val i.isLt j.isLt]
+
+theorem rankOfColumns_eq (d n : Nat) (vs : Nat → Nat → QI) :
+    rankOfColumns d n vs = (Matrix.of fun (a : Fin d) (k : Fin n) => (vs k.val a.val).toC).rank := by
+  unfold rankOfColumns
+  rw [rank_eq_rank, qmatToM_ofMat ⟨d, n, fun a k => vs k a⟩]
+  rfl
+
+theorem linIndepV_yes_iff' (d n : Nat) (vs : Nat → Nat → QI) :
+    linIndepV d n vs = .yes ↔ LinearIndependent ℂ (fun (k : Fin n) (a : Fin d) => (vs k.val a.val).toC) := by
+  unfold linIndepV
+  rw [Verdict.ofBool_yes_iff, beq_iff_eq, rankOfColumns_eq, ← Toq.Rank.linearIndependent_col_iff_rank]
+  rfl
+
 
 end Toq.MatrixPreds
